@@ -545,3 +545,49 @@ func c09DroppedThenTampered(w *core.WorkerCtx, report []string) {
 	}
 	w.R.Count("dropped_then_altered_scenarios", 1)
 }
+
+// c09ClockSkew: peers' clocks are not this node's clock. Vertices arrive whose creation time lies a little or a lot
+// ahead of this node's clock (and far behind it); the node's next own vertices are sealed on top of them. Every created
+// vertex must be in the graph with an edge from each declared parent, under the hash it was returned with.
+func c09ClockSkew(w *core.WorkerCtx) {
+	rng := core.Rand(w.Seed, "clockskew", w.Batch)
+	desc := fmt.Sprintf("c09 parents from peers whose clocks run ahead or behind seed=%d batch=%d", w.Seed, w.Batch)
+	w.Mark("%s", desc)
+	world := ledger.NewWorld(rng, w.R, []string{"C09"}, allSnapOracles, desc)
+	defer world.Close()
+	if _, err := ledger.Setup(world, ledger.Profile{Nodes: 1, Users: 4, SupplyClass: 0, Delivery: "lockstep"}); err != nil {
+		w.R.Inconc("setup failed: " + err.Error())
+		return
+	}
+	n := world.Nodes[0]
+	u := world.Users
+	for round, skew := range []time.Duration{5 * time.Millisecond, 2 * time.Second, time.Hour, 30 * 24 * time.Hour, -400 * 24 * time.Hour, time.Millisecond, 10 * time.Second} {
+		s := n.Prev
+		var tip ledger.H
+		var wgt uint64
+		for h := range s.Leaves {
+			if v, ok := s.Vertex(h); ok && v.Weight >= wgt {
+				tip, wgt = h, v.Weight
+			}
+		}
+		if wgt == 0 {
+			break
+		}
+		t := world.NewTrx(u[0], u[1+round%3].Addr, spice.Melange{}, []byte(fmt.Sprintf("from a peer whose clock is off by %v", skew)))
+		v := ledger.ForgeVertex(world.Sealers[round%2], t, tip, tip, wgt+1, time.Now().Add(skew))
+		derr := world.Deliver(n, &v, fmt.Sprintf("vertex created %v from now", skew))
+		// two local vertices on top
+		for k := 0; k < 2; k++ {
+			m := world.NewTrx(u[0], u[2].Addr, spice.Melange{SupplementaryCurrency: uint64(1 + k)}, nil)
+			cv, err := world.Propose(n, &m, "local vertex on a parent from another clock")
+			if err == nil {
+				if _, ok := n.Prev.Live[cv.Hash]; !ok {
+					world.Violate("C09", "created-not-in-dag", fmt.Sprintf("CreateLeaf returned vertex %s (parent created %v from now) but the graph does not hold it under that hash", ledger.Hex(cv.Hash), skew))
+				}
+			}
+		}
+		world.EvalFor("C09", 1)
+		world.NontrivFor("C09", fmt.Sprintf("clock-skew/%v/admitted=%v", skew, derr == nil))
+	}
+	w.R.Count("c09_clock_skew_scenarios", 1)
+}
